@@ -995,13 +995,9 @@ class DateTime(datetime.datetime, Date):
 
         start = self if keep_time else self.start_of("day")
 
-        # Always step from the start so that a skipped or repeated time
-        # met on the way does not shift the result.
-        days = 1
-        dt = start.add(days=days)
-        while dt.day_of_week != day_of_week:
-            days += 1
-            dt = start.add(days=days)
+        # Jump from the start in one step so that a skipped or repeated
+        # time met on the way does not shift the result.
+        dt = start.add(days=(day_of_week - start.day_of_week - 1) % 7 + 1)
 
         return dt if keep_time else dt.start_of("day")
 
@@ -1022,14 +1018,10 @@ class DateTime(datetime.datetime, Date):
 
         start = self if keep_time else self.start_of("day")
 
-        # Always step from the start: when the previous day does not exist
-        # (a zone that skipped a whole day) subtracting one day at a time
-        # from the previous result would land on the same day forever.
-        days = 1
-        dt = start.subtract(days=days)
-        while dt.day_of_week != day_of_week:
-            days += 1
-            dt = start.subtract(days=days)
+        # Jump from the start in one step: when the previous day does not
+        # exist (a zone that skipped a whole day) subtracting one day at a
+        # time from the previous result would land on the same day forever.
+        dt = start.subtract(days=(start.day_of_week - day_of_week - 1) % 7 + 1)
 
         return dt if keep_time else dt.start_of("day")
 
